@@ -195,3 +195,16 @@ pub fn history(rng: &mut Rng, ctor: Sx, ops: Vec<Sx>) -> Sx {
     }
     l(v)
 }
+
+/// turns a name into one that is unusual but legal for a Rust string: NUL bytes at the end or inside, blanks at either end,
+/// DEL, a two-byte UTF-8 character (string lengths count bytes)
+pub fn odd_string(rng: &mut Rng, v: &mut Vec<u8>) {
+    match rng.below(6) {
+        0 => v.extend(std::iter::repeat(0u8).take(rng.range(1, 4) as usize)),
+        1 => { let k = rng.below(v.len() as u64 + 1) as usize; v.insert(k, 0); }
+        2 => { v.insert(0, b' '); v.push(b' '); }
+        3 => v.push(0x7f),
+        4 => { let k = rng.below(v.len() as u64 + 1) as usize; v.insert(k, 0xa9); v.insert(k, 0xc3); }
+        _ => { v.push(0); let k = rng.below(v.len() as u64) as usize; v.insert(k, b'\t'); }
+    }
+}
